@@ -152,6 +152,17 @@ func c10Drive(args []string) int {
 			}
 			return out
 		}
+		// bulk rounds: inputs of several buffer sizes (bufio 4096, scanner 64 KiB), so that records straddle every refill
+		for bulk := 0; bulk < 2+rounds/20; bulk++ {
+			a, b := pick(150+r.Intn(300), true), pick(150+r.Intn(300), true)
+			if bulk%2 == 1 {
+				a, b = pick(2500+r.Intn(1500), false), pick(50+r.Intn(50), true)
+			}
+			ta, tb := c10Run(f, a), c10Run(f, b)
+			tab := c10Run(f, append(append([]string{}, a...), b...))
+			add(M{"ev": "concat", "a": ta, "b": tb, "ab": tab, "format": f.Name, "recs_a": fmt.Sprintf("%d records", len(a)), "recs_b": fmt.Sprintf("%d records", len(b)), "bulk": true})
+			sum.eval(true, M{"f": f.Name, "bulk": bulk, "n": len(a) + len(b)})
+		}
 		for round := 0; round < rounds; round++ {
 			a, b := pick(r.Intn(4), true), pick(r.Intn(4), true)
 			ta, tb := c10Run(f, a), c10Run(f, b)
